@@ -7,7 +7,7 @@ MANIFEST = dict(
     category="proof",
     text="Contracts on the real OPNMIDIplay::realTime_Controller, PatchChange, PitchBend (both), BankChangeLSB/MSB/BankChange, ChannelAfterTouch, NoteOff (extracted on every run), with NO precondition on the uint8/uint16 arguments: every index into the channel table is inside the table, callees receive a valid channel index, and the table invariant (volume, expression, brightness, program of every channel <= 127 - what touchNote and the instrument lookup require) is preserved; by induction over call histories. OPN2::noteOn/touchNote safety: C02/C11; SysEx: C19.",
     design_ref="DESIGN.md C03",
-    level_note="Scope: argument validation and table indexing only. Not covered: realTime_NoteOn/NoteAfterTouch (intrusive list iterators, not extracted), the C API wrappers, containers, emulator cores, the sequencer, audio generation. Callees (noteUpdateAll, updatePortamento, setRPN, noteOff, killSustainingNotes, markSostenutoNotes, MIDIchannel::resetAllControllers121) are assumed contracts that require a valid channel index and are assumed not to modify the four range-constrained fields. Table size fixed to 16 channels.",
+    level_note="Scope: argument validation and table indexing only. realTime_NoteAfterTouch is covered with the list lookup as an assumed contract. Not covered: realTime_NoteOn (intrusive list iterators and the allocation logic, not extracted), the C API wrappers, containers, emulator cores, the sequencer, audio generation. Callees (noteUpdateAll, updatePortamento, setRPN, noteOff, killSustainingNotes, markSostenutoNotes, MIDIchannel::resetAllControllers121) are assumed contracts that require a valid channel index and are assumed not to modify the four range-constrained fields. Table size fixed to 16 channels.",
     technique="CBMC code contracts (DFCC) on mechanically extracted C++ member functions; inductive table invariant")
 TRUSTED = ["extraction rules of vlib/cxx2c.py", "harness/env_play.h", "assumed callee contracts listed in contracts/rt_contracts.h"]
 ASSUMPTIONS = ["channel table has 16 entries (one MIDI port)"]
@@ -20,6 +20,9 @@ FUNCS = [
     ("realTime_PitchBend", dict(must=["R10"], params_re=r"uint8_t msb", rename="realTime_PitchBend2")),
     ("realTime_BankChangeLSB", dict(must=["R10"])), ("realTime_BankChangeMSB", dict(must=["R10"])), ("realTime_BankChange", dict(must=["R10"])),
     ("realTime_ChannelAfterTouch", dict(must=["R10"])),
+    ("realTime_NoteAfterTouch", dict(must=["R10", "R3"], post=[
+        (r"notes_iterator i = g_play\.m_midiChannels\[channel\]\.find_activenote\(note\);", "pl_cell_NoteInfo *i = MIDIchannel_find_activenote(&g_play.m_midiChannels[channel], note);   /* R7: iterator -> cell pointer */"),
+        (r"!i\.is_end\(\)", "(i != NULL) /* R7: is_end() */")])),
     ("realTime_NoteOff", dict(must=["R10"], post=[(r"noteOff\(channel, note\)", "noteOff(channel, note, false /* default argument of the declaration */)")])),
 ]
 
@@ -33,9 +36,9 @@ def _extract(wd):
 
 def groups(tier):
     gs = []
-    REPL = ["noteUpdateAll", "updatePortamento", "setRPN", "noteOff", "killSustainingNotes", "markSostenutoNotes", "MIDIchannel_resetAllControllers121"]
+    REPL = ["noteUpdateAll", "updatePortamento", "setRPN", "noteOff", "killSustainingNotes", "markSostenutoNotes", "MIDIchannel_resetAllControllers121", "MIDIchannel_find_activenote"]
     for n, kw in FUNCS:
         c = kw.get("rename", n)
         gs.append(Group("rt_" + c, "harness/rt_h.c", "h_" + c, enforce=c, replace=REPL, extract=_extract, object_bits=9,
-                        unwindset="spec_inv_ranges.0:17", required=[r"postcondition", r"assigns"], funcs=["OPNMIDIplay::" + n], timeout=600))
+                        unwindset="spec_inv_ranges.0:17,realTime_NoteAfterTouch.0:130,spec_table_same_but_aftertouch.0:130,spec_table_same_but_aftertouch.1:130,spec_MIDIchannel_eq.0:130", required=[r"postcondition", r"assigns"], funcs=["OPNMIDIplay::" + n], timeout=600))
     return gs
